@@ -12,6 +12,10 @@
 //!      `pake1 i=<k> pw=<n> [pt=valid|zero|offcurve|short]`
 //!      `pake3 i=<k> [ca=good|flip|zero|short|replay:<j>]`   (replay: the cA initiator j computed)
 //!      `abort i=<k>`                                       status report InvalidParameter instead of the next message
+//! `case <id> pw=<n> tamper=<k>:<bit>`: additionally exactly one bit of the *payload* (the TLV handshake
+//!      message behind the two headers) of the k-th payload-carrying datagram towards the device - or of the
+//!      PBKDFParamResponse - is flipped in flight (bit index modulo the payload length); such cases are checked
+//!      by the oracle only (no session may result).
 //! every answer: `t=<virtual ms at the op> <reply> | w=<0|1> f=<failures|-> m=<0|1> s=<PASE sessions> adv=<0|1>`
 use crate::proto::{parse_cases, Case, Out};
 use crate::rng::Rng;
@@ -35,7 +39,8 @@ use rs_matter::tlv::{OctetStr, TLVTag, TLVWrite, ToTLV};
 use rs_matter::transport::exchange::{Exchange, MessageMeta};
 use rs_matter::transport::network::NoNetwork;
 use rs_matter::transport::session::SessionMode;
-use rs_matter::utils::storage::ReadBuf;
+use rs_matter::transport::packet::PacketHdr;
+use rs_matter::utils::storage::{ParseBuf, ReadBuf};
 use rs_matter::transport::network::MatterLocalService;
 use rs_matter::BasicCommData;
 use rs_matter::Matter;
@@ -122,7 +127,7 @@ fn describe(op: u8, payload: &[u8]) -> String {
     }
 }
 
-async fn run_script<'a, C: Crypto>(device: &'a Matter<'a>, ctrl: &'a Matter<'a>, crypto: &'a C, ops: &[String], outs: &RefCell<Vec<String>>) -> Result<(), Error> {
+async fn run_script<'a, C: Crypto>(device: &'a Matter<'a>, ctrl: &'a Matter<'a>, crypto: &'a C, ops: &[String], outs: &RefCell<Vec<String>>, notes: &RefCell<Vec<String>>) -> Result<(), Error> {
     let mut inits: HashMap<u64, Init<'a>> = HashMap::new();
     for op in ops {
         let m = kv(op);
@@ -178,7 +183,7 @@ async fn run_script<'a, C: Crypto>(device: &'a Matter<'a>, ctrl: &'a Matter<'a>,
                 let s = match r {
                     Ok((opc, payload)) => {
                         if opc == OpCode::PBKDFParamResponse as u8 {
-                            if let Ok((salt, iterations)) = verif_parse_pbkdf_resp(&payload) {
+                            if let Ok((salt, iterations)) = verif_parse_pbkdf_resp(&payload).and_then(|(s, i)| if i > 100_000 { Err(ErrorCode::Invalid.into()) } else { Ok((s, i)) }) {
                                 init.salt = salt.to_vec();
                                 init.iterations = iterations;
                                 let ctx = init.spake.start_context(crypto, init.local_sessid, 0, &init.req)?;
@@ -300,9 +305,27 @@ async fn run_script<'a, C: Crypto>(device: &'a Matter<'a>, ctrl: &'a Matter<'a>,
         };
         // let the device finish what the message triggered
         Timer::after(Duration::from_millis(20)).await;
-        outs.borrow_mut().push(format!("t={} {} | {}", t0, res, observe(device)));
+        let mut line = format!("t={} {} | {}", t0, res, observe(device));
+        for n in notes.borrow_mut().drain(..) {
+            line.push(' ');
+            line.push_str(&n);
+        }
+        outs.borrow_mut().push(line);
     }
     Ok(())
+}
+
+/// offset of the application payload of an unsecured datagram and its protocol opcode (real header parsers)
+fn payload_start(bytes: &[u8]) -> Option<(usize, u8)> {
+    let mut c = bytes.to_vec();
+    let mut pb = ParseBuf::new(&mut c);
+    let mut hdr = PacketHdr::new();
+    hdr.plain.decode(&mut pb).ok()?;
+    if hdr.plain.is_encrypted() {
+        return None;
+    }
+    hdr.decode_remaining(test_only_crypto(), None, 0, &mut pb).ok()?;
+    Some((pb.read_off(), hdr.proto.proto_opcode))
 }
 
 fn run_case(out: &mut Out, case: &Case) {
@@ -319,8 +342,37 @@ fn run_case(out: &mut Out, case: &Case) {
     let sc = SecureChannel::new(&crypto, &());
     let responder = Responder::new("device", sc, &device, 0);
     let outs: RefCell<Vec<String>> = RefCell::new(Vec::new());
+    let notes: std::rc::Rc<RefCell<Vec<String>>> = std::rc::Rc::new(RefCell::new(Vec::new()));
+    if let Some(t) = m.get("tamper") {
+        let notes = notes.clone();
+        let mut it = t.split(':');
+        let k: u64 = it.next().and_then(|x| x.parse().ok()).unwrap_or(0);
+        let bit: usize = it.next().and_then(|x| x.parse().ok()).unwrap_or(0);
+        let mut seen = 0u64;
+        net.set_tamper(Box::new(move |_seq, from, _to, bytes| {
+            let (start, opcode) = payload_start(bytes)?;
+            if start >= bytes.len() {
+                return None; // stand-alone acknowledgement
+            }
+            // towards the device: every handshake message; towards the initiator: the PBKDFParamResponse only
+            // (a damaged Pake2 is the initiator's to detect, not the responder's)
+            if from == 0 && opcode != OpCode::PBKDFParamResponse as u8 {
+                return None;
+            }
+            seen += 1;
+            if seen != k {
+                return None;
+            }
+            let mut v = bytes.to_vec();
+            let b = bit % ((bytes.len() - start) * 8);
+            // which payload byte of which message was hit: `hit=<opcode hex>:<offset>/<payload length>:<bit>:<old byte hex>`
+            notes.borrow_mut().push(format!("hit={:02x}:{}/{}:{}:{:02x}", opcode, b / 8, bytes.len() - start, b % 8, v[start + b / 8]));
+            v[start + b / 8] ^= 1 << (b % 8);
+            Some(v)
+        }));
+    }
     let end = {
-        let script = run_script(&device, &ctrl, &crypto, &case.ops, &outs);
+        let script = run_script(&device, &ctrl, &crypto, &case.ops, &outs, &notes);
         let all = async {
             match select4(device.run(&crypto, &ds, &ds, NoNetwork), responder.run::<4>(), ctrl.run(&crypto, &cs, &cs, NoNetwork), script).await {
                 embassy_futures::select::Either4::Fourth(r) => r,
@@ -531,6 +583,17 @@ fn gen_case(id: u64, r: &mut Rng, out: &mut Out) -> (String, Vec<String>) {
     (format!("pw={}", dev_pw), ops)
 }
 
+/// the honest handshake with one payload bit flipped in flight
+fn gen_tamper(r: &mut Rng, out: &mut Out) -> (String, Vec<String>) {
+    let dev_pw = *r.pick(&[20202021u64, 12345679]);
+    // payload-carrying datagrams in order: 1 PBKDFParamRequest, 2 PBKDFParamResponse, 3 Pake1, 4 Pake3
+    let k = r.range(1, 4);
+    let bit = r.below(4096);
+    out.stat(&format!("tamper_msg_{}", k), 1);
+    let ops = vec!["open t=300".to_string(), "pbkdf i=1".into(), format!("pake1 i=1 pw={}", dev_pw), "pake3 i=1".into()];
+    (format!("pw={} tamper={}:{}", dev_pw, k, bit), ops)
+}
+
 const RULE: &str = "a case = one device (real Matter + SecureChannel responder, passcode from {20202021,12345679,1,99999998}) and one controller on the simulated network with virtual time; the script plays 1-50 PASE initiators message by message with the real Spake2P prover; scenarios: honest run at an arbitrary point of the window's life, 18-22 wrong passcodes then the right one, revoke / expiry (with and without the 1 s poll) before PBKDFParamRequest / before Pake1 / before Pake3, concurrent second initiator, invalid prover shares (zero, off-curve, short), mutated / short / replayed confirmation values, malformed first messages and aborts, no window / double open / illegal timeouts, in-progress marker expiry, free mixes; non-trivial = the case contains at least one step that was refused or dropped and one that was answered; distinct = by operation list";
 
 pub fn gen(a: &Args) -> String {
@@ -542,6 +605,13 @@ pub fn gen(a: &Args) -> String {
         let mut cr = r.fork();
         let (kind, ops) = gen_case(id, &mut cr, &mut out);
         run_case(&mut out, &Case { id, kind, ops });
+    }
+    // tamper stream: single-bit mutations of the handshake messages in flight (oracle only)
+    let n_tamper = if a.thorough { 4000 } else { 300 };
+    for id in 0..n_tamper {
+        let mut cr = r.fork();
+        let (kind, ops) = gen_tamper(&mut cr, &mut out);
+        run_case(&mut out, &Case { id: n_cases + id, kind, ops });
     }
     out.finish()
 }
